@@ -41,9 +41,24 @@ V = "skgenome.tabio.vcfio"
 VA = "cnvlib.vary"
 
 
+class SampleCols(dict):
+    """record.samples: a mapping by sample name that pysam also lets one index by column position"""
+
+    def abs_getitem(self, it, k):
+        if isinstance(k, int) and not isinstance(k, bool):
+            return list(self.values())[k]
+        if k not in self:
+            raise Raised("KeyError", k)
+        return dict.__getitem__(self, k)
+
+
 def rec(start, ref, alts, info=None, samples=None, flt=()):
-    return Row({"chrom": "chr7", "start": start, "pos": t_add(T(start), Term.const(1)), "ref": ref, "alts": tuple(alts) if alts is not None else None, "info": dict(info or {}),
-                "samples": dict(samples or {}), "filter": list(flt), "id": None, "stop": None})
+    """a pysam.VariantRecord as far as the reader can see it: 0-based start, 1-based pos, stop = INFO/END or start + len(ref), alleles, a mapping-like filter"""
+    info = dict(info or {})
+    stop = info["END"] if "END" in info else t_add(T(start), Term.const(len(ref)))
+    return Row({"chrom": "chr7", "contig": "chr7", "start": start, "pos": t_add(T(start), Term.const(1)), "ref": ref, "alts": tuple(alts) if alts is not None else None,
+                "alleles": (ref,) + tuple(alts or ()), "info": info, "samples": SampleCols(samples or {}), "filter": {f: f for f in flt}, "id": None, "qual": None, "stop": stop,
+                "rlen": len(ref)})
 
 
 class VcfFile(list):
@@ -77,7 +92,7 @@ def vcf_model(vf, model=None):
             ids = list(args[0])
             obj.subsets.append(ids)
             for r in obj:
-                r.samples = {k: v for k, v in r.samples.items() if k in ids}        # pysam keeps the file's column order, not the order asked for
+                r.samples = SampleCols((k, v) for k, v in r.samples.items() if k in ids)        # pysam keeps the file's column order, not the order asked for
             obj.samples = [k for k in obj.samples if k in ids]
             return None
         return NotImplemented
